@@ -21,6 +21,11 @@ def plan(tier, seed):
                         functions=[(T2, 'DTCWTForward.__init__'), (T2, 'DTCWTForward.forward')],
                         replay=rp('dtcwt_forward', skip_hps=[False, True, False][:J], include_scale=[True, False, True][:J])))
     gs.append(Group('DTCWTForward[J=3]', MD.g_dtcwt_forward, (3, 2, -1, 'default'), level='bounded-in-J'))
+    # prefix consistency for EVERY J: with the level-loop invariant the j-th level application and what is stored at index j do not
+    # depend on J (J only bounds the loop), for each uniform skip / include setting
+    for (sk, inc) in ((False, False), (True, False), (False, True), (True, True)):
+        gs.append(Group('DTCWTForward[J symbolic,skip=%s,include=%s]' % (sk, inc), MD.g_dtcwt_forward_symJ, (2, -1, sk, inc),
+                        functions=[('dtcwt.transform2d', 'DTCWTForward.forward')], replay=rp('dtcwt_forward')))
     gs.append(Group('canary:module-lowpass-of-wrong-level', MD.g_dtcwt_forward, (2, 2, -1, 'default', True, 'symmetric', True), canary=True))
     jobs = []
     for (o, r) in [(0, 1), (4, 2), (-1, 3), (5, 0), (3, -2), (1, 5)]:
